@@ -49,7 +49,7 @@ def install(reg: Registry):
                                                    h.f('parents', r) != h.f('compromised_by', r)))),
             # the mutable per-node data of the copy is fresh: nothing is shared with the original
             ('tags-fresh', z3.Implies(z3.Not(was), z3.And(fresh(h.f('tags', r)), h.cls(h.f('tags', r)) == CLS_LIST,
-                                                          h.len(h.f('tags', r)) == o.len(o.f('tags', me))))),
+                                                          h.len(h.f('tags', r)) == o.len(o.f('tags', me)), h.own_obj(h.f('tags', r)) == -1))),
             ('extras-fresh', z3.Implies(z3.Not(was), z3.And(fresh(h.f('extras', r)), h.cls(h.f('extras', r)) == CLS_DICT))),
             ('ttc-fresh-or-none', z3.Implies(z3.Not(was), copied_opt('ttc'))),
             ('attributes-fresh-or-none', z3.Implies(z3.Not(was), copied_opt('attributes'))),
